@@ -2,6 +2,7 @@
 clearing pass, A2 free-list provenance."""
 from .engine import rule, Result
 from .mir import *
+from . import pathsem
 from .sym import SymEval, Lin
 from .rules_guard import is_negated, owner_fn
 
@@ -399,13 +400,26 @@ def a2_free_list_provenance(prog):
     fs = [f for f in prog.fns.values() if f.name == 'serialize' and f.impl and is_adt(f.impl['self'], 'entity::allocator::impl_serde::SerializeFree')]
     if len(fs) == 1:
         f = fs[0]
-        body = f.body
         r.inst('SerializeFree::serialize iterates free')
-        its = [(b, t) for b, t in body.calls(lambda c: c['name'] in ('into_iter', 'iter')) if t['args'] and ty_mentions(body.place_ty(op_place(t['args'][0])) or {}, lambda n: n.get('k') == 'adt' and n['path'].endswith('VecDeque'))]
-        ok = any((receiver_name(prog, body, t['args'][0]) or '').endswith('.free') for b, t in its)
-        elems = [(b, t) for b, t in body.calls(lambda c: c['name'] == 'serialize_element')]
-        if not ok or not elems or not all(any(b in body.reachable_after(ib) for ib, it in its) for b, t in elems):
-            r.viol('A2', 'serialize/free-not-iterated', f.loc(), 'the serialised free list is not produced by iterating the allocator\'s free queue in queue order')
+        E = pathsem.analyse(prog, f)
+        n = 0
+        bad = None
+        ORDERED = ('iter', 'into_iter', 'copied', 'cloned', 'by_ref', 'map', 'enumerate', 'inspect', 'peekable', 'fuse')
+        for p in E.paths:
+            for e in p.calls(lambda e: e['name'] == 'serialize_element'):
+                n += 1
+                v = e['vals'][1] if len(e['vals']) > 1 else None
+                els = [t for t in pathsem.subterms(v) if t[0] == 'elem'] if v is not None else []
+                ok = False
+                for t in els:
+                    root, kinds = pathsem.iter_chain(t[1])
+                    if pathsem.is_field_of(root, 'entity::allocator::Allocator', fi) and all(k in ORDERED for k in kinds):
+                        ok = True
+                if not ok:
+                    bad = bad or e
+        lens = [e for p in E.paths for e in p.calls(lambda e: e['name'] == 'serialize_seq')]
+        if E.truncated or not n or bad is not None:
+            r.viol('A2', 'serialize/free-not-iterated', f.loc(bad['ln'] if bad else None), 'the serialised free list is not produced by iterating the allocator\'s free queue in queue order')
     fs = [f for f in prog.fns.values() if f.name == 'from_serialized_parts' and 'allocator' in f.path]
     if len(fs) == 1:
         f = fs[0]
